@@ -410,11 +410,20 @@ spec("dec_away(g, n)", "(g % (n - 1)) + 1 if (g % (n - 1)) >= dec_home(g, n) els
 _cir2 = contract("<opaque>:check_int_range", params={"v": PYINT, "name": OBJ, "lo": PYINT, "hi": PYINT}, returns=PYINT,
                  ensures=["result == v and lo <= v and v <= hi"],
                  assumptions=["pycommons.check_int_range returns its argument if it lies in [lo, hi] (raises otherwise)"])
+# ghost arrays: tot[a, b] (a > b) = how often the pair {a, b} was appended so far, hm[a, b] = how often with a at home
+_PAIR_DONE = ("tot[a, b] == r + 1 and (implies(normal, hm[a, b] == (r + 2) // 2)) and "
+              "(implies(not normal, (r + 1) // 2 <= hm[a, b] and hm[a, b] <= (r + 1) // 2 + 1))")
+_PAIR_TODO = "tot[a, b] == r and hm[a, b] == (r + 1) // 2"
+_ROUND = ("0 <= r and r < rounds and normal == (r < rounds - 1 or rounds % 2 == 0) and n >= 2 and div == n - 1"
+          " and shape(tot, 0) == n and shape(tot, 1) == n and shape(hm, 0) == n and shape(hm, 1) == n")
 contract(
     GEM + ":search_space_for_n_and_rounds",
     props="C15",
-    params={"n": PYINT, "rounds": PYINT}, ghosts={"appended": PYINT}, i64=False,
-    requires=["appended == 0", "rounds >= 1"],      # the second range check of the function tests `n` again, not `rounds`
+    params={"n": PYINT, "rounds": PYINT}, ghosts={"appended": PYINT, "tot": A2(), "hm": A2()}, i64=False,
+    modifies=["tot", "hm"],
+    requires=["appended == 0", "rounds >= 1",      # the second range check of the function tests `n` again, not `rounds`
+              "shape(tot, 0) == n and shape(tot, 1) == n and shape(hm, 0) == n and shape(hm, 1) == n",
+              "forall(a, 0, n, forall(b, 0, n, tot[a, b] == 0 and hm[a, b] == 0))"],
     opaque={"check_int_range": _cir2},
     summaries={
         "assign games #0": Summary({}, [], "games = []"),
@@ -424,8 +433,25 @@ contract(
         "call games.sort #0": Summary({}, [], "games.sort(): the multiset of codes is unchanged"),
         "return #0": Summary({}, [], "Permutations(games): permutations with repetition of that multiset"),
     },
-    loops={"0": Loop(inv=["n >= 2 and div == n - 1"]), "0.0": Loop(inv=["n >= 2 and div == n - 1 and 0 <= i and i <= n"]),
-           "0.0.0": Loop(inv=["n >= 2 and div == n - 1 and 0 <= j and j <= i and i < n"])},
+    ghost_code={"after call games.append #0": ["tot[i, j] = tot[i, j] + 1", "hm[i, j] = hm[i, j] + (1 if order else 0)"]},
+    loops={
+        "0": Loop(inv=[
+            "n >= 2 and div == n - 1 and shape(tot, 0) == n and shape(tot, 1) == n and shape(hm, 0) == n and shape(hm, 1) == n",
+            tag("C15", "every-pair-once-per-round", "forall(a, 0, n, forall(b, 0, a, tot[a, b] == r))"),
+            tag("C15", "home-role-alternates-by-round",
+                "forall(a, 0, n, forall(b, 0, a, (implies(r < rounds or rounds % 2 == 0, hm[a, b] == (r + 1) // 2)) and "
+                "(implies(r == rounds and rounds % 2 == 1, r // 2 <= hm[a, b] and hm[a, b] <= r // 2 + 1))))")]),
+        "0.0": Loop(inv=[
+            _ROUND + " and 0 <= i and i <= n",
+            tag("C15", "rows-done", f"forall(a, 0, i, forall(b, 0, a, {_PAIR_DONE}))"),
+            tag("C15", "rows-to-do", f"forall(a, i, n, forall(b, 0, a, {_PAIR_TODO}))")]),
+        "0.0.0": Loop(inv=[
+            _ROUND + " and 0 <= j and j <= i and i < n",
+            tag("C15", "rows-done", f"forall(a, 0, i, forall(b, 0, a, {_PAIR_DONE}))"),
+            tag("C15", "row-prefix-done", f"forall(b, 0, j, {_PAIR_DONE.replace('a, b', 'i, b')})"),
+            tag("C15", "row-suffix-to-do", f"forall(b, j, i, {_PAIR_TODO.replace('a, b', 'i, b')})"),
+            tag("C15", "rows-to-do", f"forall(a, i + 1, n, forall(b, 0, a, {_PAIR_TODO}))")]),
+    },
     asserts={"after call games.append #0": [
         tag("C15", "appended-code-is-home-times-(n-1)-plus-away", "code == m1 * (n - 1) + m2")],
              "after if #0": [
@@ -438,6 +464,12 @@ contract(
         # squeeze with `if away_idx >= home_idx: away_idx += 1` (its own contract, assertion decode-teams)
     ]},
     lemmas_at={"after if #0": ["divmod_unique(m1, div, m2)"]},
+    ensures=[
+        tag("C15", "every-pairing-exactly-rounds-times", "forall(a, 0, n, forall(b, 0, a, tot[a, b] == rounds))"),
+        tag("C15", "home-and-away-roles-of-a-pairing-differ-by-at-most-one",
+            "forall(a, 0, n, forall(b, 0, a, -1 <= hm[a, b] - (tot[a, b] - hm[a, b]) and hm[a, b] - (tot[a, b] - hm[a, b]) <= 1))"),
+    ],
+    must_fail=["forall(a, 0, n, forall(b, 0, a, tot[a, b] == rounds + 1))"],
 )
 lemma("divmod_unique", {"q": "int", "d": "int", "r": "int"}, ["d >= 1", "0 <= r", "r < d"],
       "(q * d + r) // d == q and (q * d + r) % d == r", note="uniqueness of Euclidean division")
